@@ -59,6 +59,9 @@ FAULTS = [
     ("undefined-symbol-rhs-shadowing", "zz_o = 5\n{\nzz_o = zz_nowhere\n.db zz_o\n}"),
     # an operator the scanner lexes but the evaluator does not know, in a condition (elsewhere: see unknown-operator)
     ("unknown-operator-in-if", ".if 1 == 1 {\nnop\n}"), ("unknown-operator-in-if", ".if 2 > 1 {\nnop\n} else {\nrts\n}"),
+    # RecursionError is a RuntimeError: the file APIs catch it and return -1 (the string API lets it escape)
+    ("runaway-recursion", ".macro zz_rr() {\nzz_rr()\n}\nzz_rr()"),
+    ("mutual-recursion", ".macro zz_ra() {\nzz_rb()\n}\n.macro zz_rb() {\nzz_ra()\n}\nzz_ra()"),
     ("undefined-assign", "zz_x := zz_nowhere"), ("undefined-for-bound", ".for zz_i := 0, zz_nowhere {\nnop\n}"),
     # the program counter walks out of the last mapped bank (no *= onto an unmapped bank involved)
     ("run-off-mapped", "*=0x6FFFFC\n.dw 1, 2, 3, 4\nnop"),
